@@ -1,6 +1,8 @@
 (* C12 (end-to-end part) and the pair-creation half of C11: cmd_epr for a create-and-keep request of one pair
-   (executioner.py 377-460, send_epr_half 623-666).  The decision function may_create / is_adjacent itself is modelled and
-   translated in Qasm/Topo.v (other builder); here `adj` is its result. *)
+   (executioner.py cmd_epr, send_epr_half), as repaired by fixes/D16ii-epr-temporaries.diff: when anything fails before the
+   hand-over is complete, the temporary qubits that exist are removed again (_clear_phys_qubit_in_memory), the physical id is
+   released and the error is re-raised.  The decision function may_create / is_adjacent itself is modelled and translated in
+   Qasm/Topo.v (other builder); here `adj` is its result. *)
 From Coq Require Import List Bool Arith Lia.
 From SQ Require Import Base.ListUtil Stab.Tableau Net.Model Net.Refusal Net.Population Qasm.Exec.
 Import ListNotations.
@@ -51,7 +53,7 @@ Definition epr_fail (s : qst) (qid : nat) (coins : list bool) (tr : ntrace) : qs
    only when the request fails after a temporary exists) *)
 Definition cmd_epr_keep (i : nat) (s : qst) (known : list nat) (r : nat) (adj : bool) (qid : nat) (coins : list bool)
   : qst * qres * ntrace :=
-  if negb (epr_gate known i r adj) then (s, RErr, [])                  (* the three checks are made before the try block *)
+  if negb (epr_gate known i r adj) then (s, RErr, [])                  (* refused before any creation: see below *)
   else
     let '(s1, ok1, t1) := cmd_new i s (PP qid) in
     if negb ok1 then epr_fail s1 qid coins t1 else
@@ -69,6 +71,14 @@ Definition cmd_epr_keep (i : nat) (s : qst) (known : list nat) (r : nat) (adj : 
         end
     | _, _ => epr_fail s2 qid coins (t1 ++ t2)
     end.
+
+(* the three checks are made inside the try block as well: the except-branch then looks the two ids up in qubitList, finds
+   neither (qid is an unused physical id and qubitList's keys are used ids: TeardownX.x_keys; see gate_refusal_cleanup_is_noop)
+   and releases qid -- nothing to model *)
+Lemma gate_refusal_cleanup_is_noop s qid coins :
+  plookup (PP qid) (h_qlist (q_host s)) = None -> plookup (PM qid) (h_qlist (q_host s)) = None ->
+  epr_fail s qid coins [] = (s, RErr, []).
+Proof. intros A B. unfold epr_fail. cbn [epr_cleanup]. unfold virt_of. rewrite A, B. reflexivity. Qed.
 
 (* the code BEFORE the repair (no except-branch): kept only to show what the repair changed (unrepaired_leak below) *)
 Definition cmd_epr_keep_unrepaired (i : nat) (s : qst) (known : list nat) (r : nat) (adj : bool) (qid : nat) : qst * qres * ntrace :=
